@@ -308,6 +308,9 @@ impl<M: Math> TransformedPoint<M> {
     }
 
     fn check_all(&self, math: &mut M) -> bool {
+        if !self.logp.is_finite() {
+            return false;
+        }
         if !math.array_all_finite(&self.transformed_position) {
             return false;
         }
@@ -668,14 +671,15 @@ impl<M: Math, T: Transformation<M>> Hamiltonian<M> for TransformedHamiltonian<M,
         let mut state = self.pool().new_state(math);
         let point = state.try_point_mut().expect("State already in use");
         math.read_from_slice(&mut point.untransformed_position, untransformed_position);
-        math.logp_array(
-            &point.untransformed_position,
-            &mut point.untransformed_gradient,
-        )
-        .map_err(|e| NutsError::LogpFailure(Box::new(e)))?;
+        let logp = math
+            .logp_array(
+                &point.untransformed_position,
+                &mut point.untransformed_gradient,
+            )
+            .map_err(|e| NutsError::LogpFailure(Box::new(e)))?;
         // Force recomputation of transformed coordinates on first leapfrog step
         point.transform_id = -1;
-        if !point.check_untransformed(math) {
+        if !logp.is_finite() || !point.check_untransformed(math) {
             Err(NutsError::BadInitGrad(
                 anyhow::anyhow!("Invalid initial point").into(),
             ))
